@@ -368,6 +368,37 @@ void run_case(const vh::Case& c) {
         else if (op == "masked" && n == 5 && FRESH(1) && vh::to_u64(w[4]) >= 1) {     // contract: byteCount >= 1
             ECHO(); o[w[1]] = new SimpleString(StringFromMaskedBits((unsigned long) vh::to_u64(w[2]), (unsigned long) vh::to_u64(w[3]), (size_t) vh::to_u64(w[4]))); val(OBJ(1));
         }
+        // ---------------------------------------------------------------- SimpleStringCollection, aliasing
+        else if (op == "coll") {       // coll alloc:N set:I:LABEL get:I size ...
+            bool ok = true;
+            for (size_t k = 1; k < n && ok; k++) {
+                if (w[k].compare(0, 4, "set:") == 0) { size_t c = w[k].find(':', 4); ok = c != std::string::npos && o.count(w[k].substr(c + 1)); }
+                else ok = w[k].compare(0, 6, "alloc:") == 0 || w[k].compare(0, 4, "get:") == 0 || w[k] == "size";
+            }
+            if (!ok) vh::emit("> skip");
+            else {
+                ECHO();
+                SimpleStringCollection col;
+                for (size_t k = 1; k < n; k++) {
+                    if (w[k].compare(0, 6, "alloc:") == 0) col.allocate((size_t) vh::to_u64(w[k].substr(6)));
+                    else if (w[k].compare(0, 4, "set:") == 0) {
+                        size_t c = w[k].find(':', 4);
+                        col[(size_t) vh::to_u64(w[k].substr(4, c - 4))] = *o[w[k].substr(c + 1)];
+                    }
+                    else if (w[k].compare(0, 4, "get:") == 0) vh::emit("cval %s", vh::hex(str(col[(size_t) vh::to_u64(w[k].substr(4))])).c_str());
+                    else vh::emit("csize %lu", (unsigned long) col.size());
+                }
+            }
+        }
+        else if (op == "selfassignc" && n == 2 && HAS(1)) { ECHO(); std::string r = str(OBJ(1)); OBJ(1) = OBJ(1).asCharString(); val(OBJ(1)); xref(str(OBJ(1)) == r, "self-assignment through asCharString"); }
+        else if (op == "selfrepl" && n == 3 && HAS(1)) {
+            ECHO(); CStr b(vh::unhex(w[2])); std::string r = ref_replace(str(OBJ(1)), str(OBJ(1)), std::string(b));
+            OBJ(1).replace(OBJ(1).asCharString(), b); val(OBJ(1)); xref(str(OBJ(1)) == r, "replace-own-pattern");
+        }
+        else if (op == "selfreplw" && n == 3 && HAS(1)) {
+            ECHO(); CStr a(vh::unhex(w[2])); std::string r = ref_replace(str(OBJ(1)), std::string(a), str(OBJ(1)));
+            OBJ(1).replace(a, OBJ(1).asCharString()); val(OBJ(1)); xref(str(OBJ(1)) == r, "replace-own-replacement");
+        }
         else vh::emit("> skip");
     }
     // end-of-case cleanup is not part of the history (the generator ends histories with `delall`)
